@@ -204,6 +204,9 @@ fn gen_stream(r: &mut Rng, o: &GenOpts) -> Object {
                let mut p = Dictionary::new(); if r.chance(2, 3) { p.set("Name", Object::Name(r.pick(&[&b"StdCF"[..], b"Other", b"X"]).to_vec())); } d.set("DecodeParms", Object::Dictionary(p)); }
         2 => { d.set("Filter", Object::Name(b"Crypt".to_vec())); }                                     // no DecodeParms: no override in lopdf
         3 => { d.set("Filter", Object::Name(b"FlateDecode".to_vec())); }
+        5 => { d.set("Filter", Object::Array(vec![Object::Name(b"FlateDecode".to_vec()), Object::Name(b"Crypt".to_vec())]));   // DecodeParms array, one entry per filter
+               let mut p = Dictionary::new(); if r.chance(3, 4) { p.set("Name", Object::Name(r.pick(&[&b"StdCF"[..], b"Other", b"X", b"Identity"]).to_vec())); }
+               d.set("DecodeParms", Object::Array(vec![Object::Null, Object::Dictionary(p)])); }
         4 => { d.set("Filter", Object::Array(vec![Object::Name(b"Crypt".to_vec()), Object::Integer(1)])); // not all names: filters() fails
                let mut p = Dictionary::new(); p.set("Name", Object::Name(b"X".to_vec())); d.set("DecodeParms", Object::Dictionary(p)); }
         _ => {}
@@ -280,7 +283,11 @@ pub fn collect_ivs(orig: &Object, enc: &Object, out: &mut Vec<Vec<u8>>) {
         (Object::Array(x), Object::Array(y)) => for (p, q) in x.iter().zip(y) { collect_ivs(p, q, out); },
         (Object::Dictionary(x), Object::Dictionary(y)) => for ((_, p), (_, q)) in x.iter().zip(y.iter()) { collect_ivs(p, q, out); },
         (Object::String(x, _), Object::String(y, _)) => if x.len() != y.len() && y.len() >= 16 { out.push(y[..16].to_vec()); },
-        (Object::Stream(x), Object::Stream(y)) => if x.content.len() != y.content.len() && y.content.len() >= 16 { out.push(y.content[..16].to_vec()); },
+        (Object::Stream(x), Object::Stream(y)) => {
+            // the strings of the stream dictionary are processed before the data
+            for ((_, p), (_, q)) in x.dict.iter().zip(y.dict.iter()) { collect_ivs(p, q, out); }
+            if x.content.len() != y.content.len() && y.content.len() >= 16 { out.push(y.content[..16].to_vec()); }
+        }
         _ => {}
     }
 }
@@ -438,14 +445,14 @@ fn one_case(c: &mut Ctx, r: &mut Rng, cfg: &Config, orig: &Document, with_save: 
 
     // ---- ISO reference decrypts what lopdf encrypted (user and owner password), bit for bit
     // the reference is ISO; keep documents on which lopdf is known / expected to differ out of the reference checks:
-    // Metadata *dictionaries*, Crypt filters in V<4 documents, Crypt filter without a DecodeParms dictionary
-    // (finding F-C06-d) or in a malformed Filter array.
+    // Metadata *dictionaries*, Crypt filters in V<4 documents or in a malformed Filter array.
     let mut crypt_any = false; let mut crypt_odd = false;
     for (_, o) in orig.objects.iter() { scan_crypt(o, &mut crypt_any, &mut crypt_odd); }
     let iso_clean = n_md == 0 && !(cfg.revision() < 4 && crypt_any) && !crypt_odd;
     if iso_clean {
         for (who, pw) in [("user", &e.user_b), ("owner", &e.owner_b)] {
-            match rf::decrypt_document(&e.doc, pw, false, false) {
+            if who == "owner" && cfg.revision() <= 4 && e.owner_b.is_empty() && !e.user_b.is_empty() { continue; }
+            match rf::decrypt_document(&e.doc, pw, true, false) {
                 Ok((d, _)) => {
                     if let Err(w) = docs_same_mod_length(orig, &d) {
                         c.oracle_fail("reference-decrypt-differs", &format!("ISO reference decrypting lopdf's output with the {} password: {}", who, w), case.clone());
@@ -478,15 +485,22 @@ fn one_case(c: &mut Ctx, r: &mut Rng, cfg: &Config, orig: &Document, with_save: 
         Err(cls) => c.oracle_fail("user-password-rejected", &cls, case.clone()),
     }
     // ---- real decrypt: owner password. R2–R4 with owner != user is finding F-C05-a territory: correspondence only
-    let owner_known_bad = cfg.revision() <= 4 && e.owner_b != e.user_b;
-    match decrypt_real2(c, &e, &cfg.owner, &[], !owner_known_bad) {
+    let owner_known_bad = false;   // F-C05-a repaired: the owner password is under the oracle for every revision
+    // R2-R4: an empty owner password means there is none (Algorithm 3 step a): "" is then not a password of the document
+    let owner_absent = cfg.revision() <= 4 && e.owner_b.is_empty() && !e.user_b.is_empty();
+    if owner_absent {
+        match decrypt_real(c, &e, &cfg.owner, &[]) {
+            Ok(_) => c.oracle_fail("wrong-password-accepted", "the empty password was accepted although no owner password was set and the user password is not empty", case.clone()),
+            Err(_) => c.count("owner_absent.empty_rejected"),
+        }
+    } else { match decrypt_real2(c, &e, &cfg.owner, &[], !owner_known_bad) {
         Ok(d) => {
             if owner_known_bad { c.count("owner_r234.corr_only"); }
             else if let Err(w) = docs_same_mod_length(orig, &d) { c.oracle_fail("owner-roundtrip-differs", &w, case.clone()); } else { c.count("roundtrip_ok.owner"); }
         }
         Err(cls) => if !owner_known_bad { c.oracle_fail("owner-password-rejected", &cls, case.clone()) }
                     else { c.count("owner_r234.rejected") },
-    }
+    } }
     // ---- wrong password: error, document unchanged (checked inside decrypt_real)
     let wrong = pick_wrong(r, cfg);
     let wrong_b = sanitize(&e.doc, &wrong).unwrap_or_default();
@@ -564,7 +578,7 @@ fn file_representable(o: &Object, top: bool) -> bool {
         _ => true,
     }
 }
-fn scan_crypt(o: &Object, any: &mut bool, odd: &mut bool) {
+pub fn scan_crypt(o: &Object, any: &mut bool, odd: &mut bool) {
     match o {
         Object::Array(a) => for x in a { scan_crypt(x, any, odd); },
         Object::Dictionary(d) => for (_, x) in d.iter() { scan_crypt(x, any, odd); },
@@ -574,7 +588,7 @@ fn scan_crypt(o: &Object, any: &mut bool, odd: &mut bool) {
                 Ok(Object::Array(a)) => (a.iter().any(|x| matches!(x, Object::Name(n) if n == b"Crypt")), a.iter().all(|x| matches!(x, Object::Name(_)))),
                 _ => (false, true),
             };
-            if has { *any = true; if !all_names || !matches!(s.dict.get(b"DecodeParms"), Ok(Object::Dictionary(_))) { *odd = true; } }
+            if has { *any = true; if !all_names { *odd = true; } }
         }
         _ => {}
     }
@@ -698,7 +712,7 @@ fn witnesses(c: &mut Ctx) {
                     Err(cls) => { if auth && cls == "Padding" { repro += 1; } detail.push(format!("{:?}: authenticated={} then Err({}) (AES padding of garbage)", ver, auth, cls)) }
                 }
                 // and the ISO reference opens the same document with the owner password
-                if !matches!(rf::decrypt_document(&e.doc, b"owner", false, false), Ok((ref d, true)) if docs_same_mod_length(&orig, d).is_ok()) { detail.push(format!("{:?}: reference failed too", ver)); }
+                if !matches!(rf::decrypt_document(&e.doc, b"owner", true, false), Ok((ref d, true)) if docs_same_mod_length(&orig, d).is_ok()) { detail.push(format!("{:?}: reference failed too", ver)); }
             }
         }
         c.witness("F-C05-a", repro == 4, &format!("decrypt(\"owner\") on documents encrypted with owner=\"owner\", user=\"user\": {}", detail.join("; ")));
